@@ -6,6 +6,7 @@ from ..gen import cells as G
 from ..gen import maps as M
 from ..translate import labelfns as tr
 from ..translate import arith2
+from ..translate import hashmapsrc as hmsrc
 
 SPEC = dict(
     manifest=dict(
@@ -29,7 +30,8 @@ SPEC = dict(
         technique='Lean 4 proof (hand model + label functions translated from source) + differential correspondence with the library + round-trip oracle',
     ),
     translators=[('hashmap/utils.py->Generated/LabelFns.lean', tr.regenerate),
-                 ('hashmap.py set_int_key range test->Generated/DictKey.lean', arith2.regenerator('DictKey'))],
+                 ('hashmap.py set_int_key range test->Generated/DictKey.lean', arith2.regenerator('DictKey')),
+                 ('hashmap/parse.py+utils.py->Generated/HashmapSrc.lean', hmsrc.regenerate)],
     design_ref='DESIGN.md §6 C09',
     rule='a case = (key width, value serialiser, insertion sequence of (key form, value)); widths 1-2 all key sets x all orders, width 3 all key '
          'sets x 4 orders (all orders thorough), width 4 sampled key sets (all 65535 thorough), widths 5..1023 prefix-sharing patterns; key forms '
@@ -362,6 +364,11 @@ def src_search(ctx):
         if 1 <= pt['size'] <= 1023:
             run_case(ctx, pt['size'], 'u3', [(f'i:{pt["key"]}', '1')], (), 'src-key')
             run_case(ctx, pt['size'], 'u3', [('i:0', '2'), (f'i:{pt["key"]}', '1')], (), 'src-key2')
+    # regenerated parser / serialiser (Generated/HashmapSrc.lean) vs hand model: the differing dictionaries are round-tripped first
+    hm = hmsrc.diff_points(ctx)
+    for n, items in hm['ser'][:20]:
+        if 1 <= n <= 1023:
+            run_case(ctx, n, 'u3', [(f'i:{k}', str((i * 3 + 1) % 8)) for i, (k, _) in enumerate(items)], (), 'src-ser')
     return len(ctx.failures) > n0
 
 
